@@ -255,7 +255,7 @@ type emitFn func(fam string, h *History) bool
 // enumerate generates every history of the plan for a stream.
 func enumerate(st *stream, pl plan, emit emitFn) bool {
 	n := len(st.free)
-	ends := []string{"close", "leave"}
+	ends := []string{"close", "leave", "replaced"}
 	base := func(p []int) []Step {
 		s := make([]Step, n)
 		for k, x := range p {
